@@ -62,7 +62,7 @@ P["C17"] = dict(
          "every cursor store classified as inside the viewport (constant 1, clamped argument, guarded increment, wrap test), every cursor/viewport "
          "change followed by a recomputation of the derived buffer offset, and the offset formula itself (polynomial normal form). Equality with a "
          "reference terminal over all byte streams, scrolling contents and buffer memory safety are not decided. "
-         "Added: (R4) the buffer-scrolling arm of lf moves exactly the viewport's lines up by one stride and blanks exactly viewportWidth cells. Also (R1): the TAB loop runs tabWidth times with no exit other than its counting test, and carriage return stores 1 into cursorX (in the helper or in place).",
+         "Added: (R4) the buffer-scrolling arm of lf moves exactly the viewport's lines up by one stride and blanks exactly viewportWidth cells. Also (R1): the TAB loop runs tabWidth times with no exit other than its counting test, and carriage return stores 1 into cursorX (in the helper or in place). VT.Write hands data[T] to WriteByte for T = 0..len(data)-1 and nothing on the way ranges over a string.",
     technique="case-set exhaustiveness + SSA dominance facts per phi edge + must-pass-through + polynomial normal form",
     ref="DESIGN.md section 3, C17",
 )
@@ -81,7 +81,7 @@ P["C01"] = dict(
          "publication after success, availability guard on every visitor store, identical inward rounding at the three region-to-frame sites "
          "(polynomial normal forms with cdiv/fdiv atoms) and outward rounding of the kernel range, allocation returns exactly the frame whose bit it "
          "tested and set with the same bit encoding as mark/free, bits cleared only by free/mark, allocator variable ownership. Histories (who holds "
-         "which frame over time) and pool-boundary arithmetic for a kernel spanning pools are not decided.",
+         "which frame over time) and pool-boundary arithmetic for a kernel spanning pools are not decided. Added: (R4) alloc-scan-complete: the loops that advance the bitmap word index and the pool index in AllocFrame start at 0 (a scan starting at a remembered position misses frames freed behind it).",
     technique="SSA dominance + must-pass-through ordering + polynomial/rounding normal forms + writers-of",
     ref="DESIGN.md section 3, C01",
 )
@@ -130,7 +130,7 @@ P["C07"] = dict(
          "success returns the new cursor, failures store nothing; page-aligned initial value), the unbounded-argument wrap rule on the size "
          "round-up in EarlyReserveRegion and MapRegion (found and fixed F4), and MapRegion's reserve-then-map structure with exactly cdiv(size,4096) "
          "consecutive pages/frames. Disjointness over sequences follows from the inductive step; it is not separately mechanised. "
-         "Added: (R3) the region loop in induction form and the wrap hazard of an unsigned subtraction in the page count (size-1 for size 0).",
+         "Added: (R3) the region loop in induction form and the wrap hazard of an unsigned subtraction in the page count (size-1 for size 0). Also: the page count of the region loops passes through no narrowing integer conversion.",
     technique="writers-of + SSA dominance + unbounded-argument wrap rule (use-dominance) + polynomial normal forms",
     ref="DESIGN.md section 3, C07",
 )
@@ -142,7 +142,7 @@ P["C11"] = dict(
          "entries start with a NameString, deferred ones with PkgLen, Method's flags are attached argument #1). Computed by constant folding of the "
          "program's own lookup functions through go/ssa control flow. Scoping, relocation, forward references and multi-table loads - the "
          "behavioural core of C11 - are NOT decided; the size of this claim is small and stated as such. "
-         "Added: (R4) every Parser field written while parsing is re-initialised at the start of each table; (R5) every site that reads a method's argument count uses flags & 7. (R6) the bit offset stored for a field unit is a variable of the element loop that starts at 0 and only grows by parsed package lengths.",
+         "Added: (R4) every Parser field written while parsing is re-initialised at the start of each table; (R5) every site that reads a method's argument count uses flags & 7. (R6) the bit offset stored for a field unit is a variable of the element loop that starts at 0 and only grows by parsed package lengths. (R7) both resolve passes find the scope block of a named target by scanning its children for the scope-block opcode, not at a fixed argument position.",
     technique="exhaustiveness / table agreement by constant folding of SSA over finite domains",
     ref="DESIGN.md section 3, C11",
 )
@@ -162,7 +162,7 @@ P["C13"] = dict(
          "enumerated idioms (mutual link, splice-in, guarded bypass, reset, free-list push/pop) with its partner on every path; parent first/last "
          "indices and the node's parent index are maintained; free-list reuse before growth, refusal to free objects with children, freed slots "
          "unreachable through ObjectAt. Lookup semantics of Find and the induction over histories are not decided. "
-         "Added: (R4) dispatch structure of ObjectTree.Find (absolute, caret and multi-segment names use the downward-only lookup; single segments walk the parent chain comparing all name bytes). (R5) every element access and re-slicing of the path expression (and of an object's name) in Find and findRelative is proved in range by linear reasoning over the dominating tests; link-store forwarding is by value identity (a link re-read after it was overwritten is another value).",
+         "Added: (R4) dispatch structure of ObjectTree.Find (absolute, caret and multi-segment names use the downward-only lookup; single segments walk the parent chain comparing all name bytes). (R5) every element access and re-slicing of the path expression (and of an object's name) in Find and findRelative is proved in range by linear reasoning over the dominating tests; link-store forwarding is by value identity (a link re-read after it was overwritten is another value). Also (R4): the prefix-skipping loop of findRelative stops exactly at 'A'..'Z' and '_' (decided for all 256 byte values).",
     technique="writers-of ownership + idiom-table pairing on all CFG paths + SSA dominance",
     ref="DESIGN.md section 3, C13",
 )
@@ -173,7 +173,7 @@ P["C15"] = dict(
          "integer type switch over all 11 built-in integer types with matching signedness (found and fixed F2); constant relations of the scratch "
          "buffer (single initialiser of maxBufSize+1 bytes, clamped width, guarded digit loop); argument bound test and the three markers. Exact "
          "output text and 'never panics' in general are not decided. "
-         "Added: (R5) every digit edge into the width variable carries 10*w + (ch - '0').",
+         "Added: (R5) every digit edge into the width variable carries 10*w + (ch - '0'). Also (R4): no function of the formatter ranges over a string (text goes out byte for byte, not as UTF-8 runes); the surplus-argument loop runs len(args) minus the arguments consumed times.",
     technique="effect analysis (go build -gcflags=-m escape diagnostics + allocating SSA operations over the call closure) + type-switch exhaustiveness",
     ref="DESIGN.md section 3, C15",
     note_extra="The escape analysis is the Go compiler's own (go build -gcflags=-m over /repo/kernel's working tree, offline); it compiles and does not execute the kernel.",
@@ -184,7 +184,7 @@ P["C19"] = dict(
          "reachable only from their guarded entry point, the caller-supplied Fill rectangle never enters arithmetic before being bounded (found and "
          "fixed F5), all colour-depth switches partition identically and write no more bytes per pixel than bytesPerPixel, rows are addressed only "
          "through fbOffset (logo area). Pixel-exact rendering, padding bytes and the glyph walk's memory safety are not decided. "
-         "Added: (R6) VesaFbConsole.Scroll moves by lines*GlyphHeight*pitch bytes and the fill painters receive the clipped cell rectangle scaled by the glyph size. Also (R6): each fill painter paints pH rows from fbOffset(pX, pY) in steps of the pitch, each row pW pixels of the pixel size, pW and pH being the values it was given, with no early exit.",
+         "Added: (R6) VesaFbConsole.Scroll moves by lines*GlyphHeight*pitch bytes and the fill painters receive the clipped cell rectangle scaled by the glyph size. Also (R6): each fill painter paints pH rows from fbOffset(pX, pY) in steps of the pitch, each row pW pixels of the pixel size, pW and pH being the values it was given, with no early exit. The cell grid is width/GlyphWidth by (height-offsetY)/GlyphHeight and the framebuffer slice has length and capacity height*pitch.",
     technique="SSA dominance + who-may-call + unbounded-argument wrap rule + switch partition agreement + polynomial forms",
     ref="DESIGN.md section 3, C19",
 )
@@ -193,7 +193,7 @@ P["C20"] = dict(
     text="Reproducibility and selection structure of the redirect scan: no append to the table or the file list under a map range (found and fixed "
          "F6), no goroutines, the scanned file set and the entry guards (FuncDecl, Doc, directive prefix) dominate the append, one entry per "
          "annotation line in source order, the recorded symbols' data flow, and order preservation through CompleteRedirects / NUM_REDIRECTS / main. "
-         "That the tool finds every annotation of every tree (go/parser behaviour) is not decided. Added: (R3) a new SymbolRedirect is allocated per annotation inside the comment loop and that record is what is appended; the image writes are recognised as binary.Write or PutUint64 + Write, little-endian.",
+         "That the tool finds every annotation of every tree (go/parser behaviour) is not decided. Added: (R3) a new SymbolRedirect is allocated per annotation inside the comment loop and that record is what is appended; the image writes are recognised as binary.Write or PutUint64 + Write, little-endian. The Walk callback returns only nil or the error it was handed (no SkipDir / private pruning).",
     technique="order-sensitivity rule (map range feeding an ordered sink) + SSA dominance + value-flow matching",
     ref="DESIGN.md section 3, C20",
 )
@@ -203,7 +203,7 @@ P["C08"] = dict(
          "the exact atomic shapes, and in archAcquireSpinlock (read through a small Plan 9 assembly CFG reader with reaching definitions) the only "
          "memory write is an atomic exchange of a non-zero immediate through the state pointer and RET is reachable only through the zero side of "
          "the test of the exchanged value. Mutual exclusion over all interleavings is a model-checking question and is NOT decided; this is the "
-         "necessary access discipline it rests on.",
+         "necessary access discipline it rests on. Added: every access through the state pointer in the assembly is 32 bits wide at offset 0 (a wider compare also reads what lies behind the lock word).",
     technique="writers/readers-of (atomic-only access) + shape matching + assembly CFG with reaching definitions",
     ref="DESIGN.md section 3, C08",
     note_extra="The assembly reader understands only the mnemonics that occur in spinlock_amd64.s; an unknown mnemonic in the anchored function is reported as undecided (fail-closed).",
